@@ -190,11 +190,13 @@ func TestTableHTTPStatus(t *testing.T) {
 		}
 	}
 	// 4. CORS: origin allow-list on GET / POST / OPTIONS, with and without header auth
-	for _, origin := range []string{"", "null", "http://a", "HTTP://A", "http://b", "http://a.evil", "http://", "http://a:80"} {
+	for _, origin := range []string{"", "EMPTY", "null", "NULL", "http://a", "HTTP://A", "http://b", "http://a.evil", "http://", "http://a:80", "http://a/", " http://a", "http://c"} {
 		for _, m := range []string{"GET", "POST", "OPTIONS"} {
 			for _, ha := range []string{"", "auth.login"} {
 				h := map[string]string{}
-				if origin != "" {
+				if origin == "EMPTY" {
+					h["Origin"] = "" // header present with an empty value
+				} else if origin != "" {
 					h["Origin"] = origin
 				}
 				p := "/api/m"
